@@ -77,7 +77,7 @@ LowerOf(tab, r) == IF r >= 65 /\ r <= 90 THEN r + 32
 Store0 == [x |-> -1, y |-> -1, cl |-> <<>>]
 X0 == [pos |-> 0, env |-> <<>>, store |-> Store0, g |-> 0, log |-> <<>>, errs |-> <<>>,
        fmax |-> 0, fset |-> {}, fany |-> FALSE, hs |-> <<>>, seeds |-> <<>>, done |-> {},
-       ab |-> "none", abinfo |-> <<>>, cnt |-> 0, haz |-> {}, mseen |-> {}]
+       ab |-> "none", abinfo |-> <<>>, cnt |-> 0, haz |-> {}, mseen |-> {}, active |-> {}]
 Res(ok, val, x) == [ok |-> ok, val |-> val, x |-> x]
 Ab(x) == x.ab # "none"
 \* restore what backtracking restores, keep what survives failure
@@ -267,8 +267,13 @@ EvRep(C, kid, x, inv, rn, acc, env0) ==
 SeedIx(x, ri, pos) ==
   LET S == {i \in 1..Len(x.seeds) : x.seeds[i].rule = ri /\ x.seeds[i].pos = pos} IN
   IF S = {} THEN 0 ELSE CHOOSE i \in S : \A j \in S : j <= i
+(* A rule entered again at an offset at which it is already being evaluated would recurse for ever   *)
+(* (left recursion, C07): the evaluation is abandoned with outcome "reentry".                        *)
 EvRule(C, ri, x, inv) ==
-  IF C.G.lr[ri] = 0 THEN Ev(C, C.G.rules[ri], x, inv, C.G.names[ri])
+  IF C.G.lr[ri] = 0 THEN
+       IF <<ri, x.pos>> \in x.active THEN Res(FALSE, Nil, [x EXCEPT !.ab = "reentry", !.abinfo = <<ri, x.pos>>])
+       ELSE LET r == Ev(C, C.G.rules[ri], [x EXCEPT !.active = @ \cup {<<ri, x.pos>>}], inv, C.G.names[ri])
+            IN [r EXCEPT !.x.active = x.active]
   ELSE LET si == SeedIx(x, ri, x.pos) IN
        IF si > 0 THEN                        \* the recursive reference: the result so far
           LET s == x.seeds[si] IN
